@@ -7,6 +7,8 @@ reading over an abstract moment function:
     SFSDistribution.cov                  (ordered second moments M[i, j] for all pairs of bins, symmetrised, minus the outer product of
                                           the means)
     SFSDistribution.corr, get_cov        (cov / outer(std, std) with NaN -> 0 on a NEW array; the centred second moment of two bins)
+    SFSDistribution.accumulate / get_accumulation (one PhaseTypeDistribution.accumulate per bin, center and permute handed on; zero rows
+                                          at 0 and beyond the bins)
     UnfoldedSFSDistribution._get_indices, FoldedSFSDistribution._get_indices, their _get_sfs_reward
 
 The bodies are compared statement by statement with the expected text (a rewrite - harmless or not - fails closed); the reading:
@@ -48,8 +50,10 @@ def texts(f):
     return [' '.join(ast.unparse(s).split()) for s in f.body if not is_doc(s)]
 
 
-def pin(tree, cname, mname, want, deco=None):
+def pin(tree, cname, mname, want, deco=None, args=None):
     f = get_method(tree, cname, mname)
+    if args is not None and [a.arg for a in f.args.args] != args:
+        raise Unsupported(f'{cname}.{mname}: unexpected parameters {[a.arg for a in f.args.args]}')
     got = texts(f)
     want = [' '.join(w.split()) for w in want]
     if got != want:
@@ -98,6 +102,19 @@ Section Gen.
   Definition SFSDistribution_get_cov (n i j : nat) : T :=
     if (Nat.eqb i 0 || Nat.eqb i n || Nat.eqb j 0 || Nat.eqb j n)%bool then o0 OP
     else pmoment 2 [combined self_reward i; combined self_reward j] true true.
+
+  Variable paccumulate : nat -> list Rw -> bool -> bool -> list T.   (* super().accumulate(k, end_times, rewards, center, permute), end_times fixed *)
+
+  (* SFSDistribution.get_accumulation: rewards default to k copies of self.reward *)
+  Definition SFSDistribution_get_accumulation (k i : nat) (rewards : option (list Rw)) (center permute : bool) : list T :=
+    let rewards := match rewards with None => repeat self_reward k | Some r => r end in
+    paccumulate k (map (fun r => combined r i) rewards) center permute.
+
+  (* SFSDistribution.accumulate: one row per entry of the spectrum, nt = len(end_times); the argument list unpacked into get_accumulation
+     is [k, i, end_times, rewards, center, permute] in the order of its parameters *)
+  Definition SFSDistribution_accumulate (n : nat) (indices : list nat) (nt k : nat) (rewards : option (list Rw)) (center permute : bool) : list (list T) :=
+    let accumulation := map (fun i => SFSDistribution_get_accumulation k i rewards center permute) indices in
+    [repeat (o0 OP) nt] ++ accumulation ++ repeat (repeat (o0 OP) nt) (n - length indices).
 End Gen.
 '''
 
@@ -127,12 +144,22 @@ def translate(src_text):
         ['if i in (0, self.lineage_config.n) or j in (0, self.lineage_config.n): return 0',
          'return super().moment(k=2, rewards=(CombinedReward([self.reward, self._get_sfs_reward(i)]), '
          'CombinedReward([self.reward, self._get_sfs_reward(j)])), center=True)'])
+    pin(tree, 'SFSDistribution', 'accumulate',
+        ['k = int(k)', 'indices = self._get_indices()', 'end_times = np.array(list(end_times))',
+         "accumulation = parallelize(func=lambda x: self.get_accumulation(*x), data=[[k, i, end_times, rewards, center, permute] for i in indices], "
+         "desc=f'Calculating accumulation of {k}-moments', pbar=self.pbar, parallelize=self.parallelize)",
+         'return np.concatenate([np.zeros((1, len(end_times))), accumulation, np.zeros((self.lineage_config.n - len(indices), len(end_times)))])'],
+        args=['self', 'k', 'end_times', 'rewards', 'center', 'permute'])
+    pin(tree, 'SFSDistribution', 'get_accumulation',
+        ['if rewards is None: rewards = [self.reward] * k',
+         'return super().accumulate(k=k, end_times=end_times, rewards=tuple([CombinedReward([r, self._get_sfs_reward(i)]) for r in rewards]), '
+         'center=center, permute=permute)'], args=['self', 'k', 'i', 'end_times', 'rewards', 'center', 'permute'])
     pin(tree, 'UnfoldedSFSDistribution', '_get_indices', ['return np.arange(1, self.lineage_config.n)'])
     pin(tree, 'FoldedSFSDistribution', '_get_indices', ['return np.arange(1, self.lineage_config.n // 2 + 1)'])
     pin(tree, 'UnfoldedSFSDistribution', '_get_sfs_reward', ['return UnfoldedSFSReward(i)'])
     pin(tree, 'FoldedSFSDistribution', '_get_sfs_reward', ['return FoldedSFSReward(i)'])
     return TEXT, ['SFSDistribution.moment', 'SFSDistribution._moment', 'SFSDistribution.cov', 'SFSDistribution.corr', 'SFSDistribution.get_cov',
-                  'UnfoldedSFSDistribution._get_indices', 'FoldedSFSDistribution._get_indices']
+                  'SFSDistribution.accumulate', 'SFSDistribution.get_accumulation', 'UnfoldedSFSDistribution._get_indices', 'FoldedSFSDistribution._get_indices']
 
 
 def main():
